@@ -36,6 +36,7 @@ from ZODB.utils import p64, u64, z64  # noqa: E402
 import c06_classes  # noqa: E402
 import clock  # noqa: E402
 from c06_classes import PL, RC, rc_resolve  # noqa: E402
+from c06_pkg.sub import RC2  # noqa: E402
 
 # Interpretation fixed with the coordinator: refusing to undo an un-creation while the object is un-created
 # through ANOTHER record ("absent == absent", decided on data records only by the code) is a safe refusal
@@ -43,7 +44,26 @@ from c06_classes import PL, RC, rc_resolve  # noqa: E402
 # leave everything unchanged, a success must restore the state before the undone transaction) and counts it.
 STRICT_ABSENT = False
 
-ST_OIDS = {'p0': 1, 'p1': 2, 'p2': 3, 'p3': 4, 'r0': 0x11, 'r1': 0x12, 'r2': 0x13}
+# storage-level oids, with boundary values: >= 2^16 (second index bucket), 0x00/0xff bytes, high bit, 2^64-1
+ST_OIDS = {'p0': 1, 'p1': 2, 'p2': 0x10000, 'p3': 0xffffffffffffffff, 'r0': 0x11, 'r1': 0x80000000ff0000ff,
+           'r2': 0x13, 'q0': 0x21, 'g0': 0x31}
+PAD = 'x' * 66000            # objects named g*: records larger than 64 KiB (utils.cp copies in 64 KiB chunks)
+
+
+def cls_of(name):
+    return {'r': RC, 'q': RC2}.get(name[0], PL)
+
+
+def state_of(name, v):
+    return {'v': v, 'pad': PAD} if name[0] == 'g' else {'v': v}
+
+
+def new_obj(name, v):
+    o = cls_of(name)(v)
+    if name[0] == 'g':
+        o.pad = PAD
+    return o
+
 DESC = b'c06 transaction'
 
 
@@ -98,7 +118,7 @@ class Tokens:
         data = untransform(data)
         v = self.rc_value(data)
         if v is not None:
-            return '01%04x' % v
+            return '%02x%04x' % v
         i = self.ids.get(data)
         if i is None:
             i = len(self.ids) + 1
@@ -111,28 +131,30 @@ class Tokens:
     _rc_cache = {}
 
     @classmethod
-    def rc_pickle(cls, v):
-        r = cls._rc_cache.get(v)
+    def rc_pickle(cls, tag, v):
+        r = cls._rc_cache.get((tag, v))
         if r is None:
-            r = cls._rc_cache[v] = mk_pickle(RC, {'v': v})
+            r = cls._rc_cache[(tag, v)] = mk_pickle(RC if tag == 1 else RC2, {'v': v})
         return r
 
     @classmethod
     def rc_value(cls, data):
-        head = cls.rc_pickle(0)[:20]
-        if not data.startswith(head[:18]):
+        """(class tag, value) of a record of one of the resolvable classes, else None"""
+        for tag, head in ((1, b'cc06_classes\nRC\n'), (2, b'cc06_pkg.sub\nRC2\n')):
+            if data[2:2 + len(head)] == head:
+                break
+        else:
             return None
         try:
             import pickle
-            f = io.BytesIO(data)
-            u = pickle.Unpickler(f)
-            klass = u.load()
+            u = pickle.Unpickler(io.BytesIO(data))
+            u.load()
             st = u.load()
         except Exception:
             return None
-        if klass is RC and isinstance(st, dict) and set(st) == {'v'} and isinstance(st['v'], int) \
-                and 0 <= st['v'] < 65536 and data == cls.rc_pickle(st['v']):
-            return st['v']
+        if isinstance(st, dict) and set(st) == {'v'} and isinstance(st['v'], int) \
+                and 0 <= st['v'] < 65536 and data == cls.rc_pickle(tag, st['v']):
+            return tag, st['v']
         return None
 
 
@@ -141,7 +163,7 @@ def tok_val(tok):
 
 
 def tok_is_rc(tok):
-    return tok is not None and tok.startswith('01')
+    return tok is not None and tok[:2] in ('01', '02')
 
 
 # ------------------------------------------------------------------ raw record structure of Data.fs
@@ -194,7 +216,11 @@ class Real:
     def __init__(self, case, tmp):
         self.mode = case['mode']
         self.storage_kind = case.get('storage', 'file')
+        self.opts = case.get('opts') or {}      # build=config|ctor, pack_gc, keep_old, cache, pool, lrs, multi, clock
         self.ops = case['ops']
+        self.between = None                     # pair mode: the other storage runs a step between undo and vote
+        self.old_index = None
+        self.opened_once = False
         self.dir = os.path.join(tmp, 'case')
         shutil.rmtree(self.dir, ignore_errors=True)
         os.makedirs(self.dir)
@@ -210,8 +236,62 @@ class Real:
         self.clk = None
 
     # -- open / close
+    def fs_options(self):
+        o = self.opts
+        return dict(create=not self.opened_once, pack_gc=o.get('pack_gc', True),
+                    pack_keep_old=o.get('keep_old', True))
+
+    def config_text(self):
+        """the same stack written as a ZODB.config text, every option spelled out (true AND false)"""
+        f = self.fs_options()
+        b = lambda x: 'true' if x else 'false'      # noqa: E731
+        def fsec(name=''):
+            return ('<filestorage%s>\n path %s\n create %s\n read-only false\n pack-gc %s\n'
+                    ' pack-keep-old %s\n</filestorage>\n' % (name and ' ' + name, self.path, b(f['create']),
+                                                            b(f['pack_gc']), b(f['pack_keep_old'])))
+        kind = self.storage_kind
+        if kind == 'demo':
+            st = '<demostorage>\n%s</demostorage>\n' % fsec('changes')
+        elif kind == 'hex':
+            st = '%%import ZODB.tests\n<hexstorage>\n%s</hexstorage>\n' % fsec()
+        else:
+            st = fsec()
+        if self.mode != 'db':
+            return st
+        imp = ''
+        if st.startswith('%import'):
+            imp, st = st.split('\n', 1)
+            imp += '\n'
+        o = self.opts
+        keys = ''
+        if o.get('cache') is not None:
+            keys += ' cache-size %d\n' % o['cache']
+        if o.get('pool') is not None:
+            keys += ' pool-size %d\n historical-pool-size 1\n' % o['pool']
+        if o.get('lrs'):
+            keys += ' large-record-size 1KB\n'
+        return '%s<zodb>\n%s%s</zodb>\n' % (imp, keys, st)
+
     def open(self):
-        self.fs = FileStorage(self.path)
+        import warnings
+        warnings.simplefilter('ignore')
+        config = self.opts.get('build') == 'config'
+        self.db = None
+        if config:
+            import ZODB.config
+            if self.mode == 'db':
+                if self.storage_kind == 'demo':
+                    import random as _random
+                    _random.seed(12345)
+                self.db = ZODB.config.databaseFromString(self.config_text())
+                self.top = self.db.storage
+            else:
+                self.top = ZODB.config.storageFromString(self.config_text())
+            self.fs = {'demo': lambda: self.top.changes, 'hex': lambda: self.top.base}.get(
+                self.storage_kind, lambda: self.top)()
+        else:
+            self.fs = FileStorage(self.path, **self.fs_options())
+        self.opened_once = True
         fs = self.fs
         orig = fs.undo
         calls = self.undo_calls
@@ -230,7 +310,18 @@ class Real:
             # DemoStorage(changes=FileStorage) (votes on behalf of the changes storage) or the
             # record-transforming HexStorage (conflict resolution has to untransform)
             kind = self.storage_kind
-            if kind == 'demo':
+            o = self.opts
+            dbopts = {}
+            if o.get('cache') is not None:
+                dbopts['cache_size'] = o['cache']
+            if o.get('pool') is not None:
+                dbopts.update(pool_size=o['pool'], historical_pool_size=1)
+            if o.get('lrs'):
+                dbopts['large_record_size'] = 1000
+            if config:
+                if kind == 'demo':
+                    self.top.undo = fs.undo     # DemoStorage copied the unwrapped bound method at __init__
+            elif kind == 'demo':
                 import random as _random
                 from ZODB.DemoStorage import DemoStorage
                 _random.seed(12345)             # DemoStorage draws its first oid from `random`
@@ -240,20 +331,45 @@ class Real:
                 self.top = HexStorage(fs)
             else:
                 self.top = fs
-            self.db = ZODB.DB(self.top)
+            self.db_other = None
+            if self.db is None and o.get('multi'):
+                # a multi-database group: the observers reach this database as SECONDARY connections
+                # of a connection to the other database
+                from ZODB.MappingStorage import MappingStorage
+                group = {}
+                self.db = ZODB.DB(self.top, databases=group, database_name='main', **dbopts)
+                self.db_other = ZODB.DB(MappingStorage(), databases=group, database_name='other')
+            elif self.db is None:
+                self.db = ZODB.DB(self.top, **dbopts)
             self.tm1 = transaction.TransactionManager()
             self.c1 = self.db.open(self.tm1)
             self.tm2 = transaction.TransactionManager()
-            self.c2 = self.db.open(self.tm2)
+            if self.db_other is not None:
+                self.c2 = self.db_other.open(self.tm2).get_connection('main')
+            else:
+                self.c2 = self.db.open(self.tm2)
             self.tmu = transaction.TransactionManager()
             # connection B: crosses a transaction boundary in the middle of the undo's commit, at the
             # one point where another thread can run without waiting for a lock of the committer:
             # right after the storage's tpc_finish has returned (the undo is lastTransaction() then)
             self.tm3 = transaction.TransactionManager()
-            self.c3 = self.db.open(self.tm3)
+            if self.db_other is not None:
+                self.c3 = self.db_other.open(self.tm3).get_connection('main')
+            else:
+                self.c3 = self.db.open(self.tm3)
             self.peek_armed = False
-            self.peek = None
+            self.peek = self.vote_peek = None
+            self.peek_parity = 0
             orig_finish = fs.tpc_finish
+            orig_vote = fs.tpc_vote
+
+            def vote_then_peek(txn):
+                r = orig_vote(txn)
+                if self.peek_armed:              # voted, not finished: nothing of the undo may be visible
+                    self.vote_peek = self.b_view()
+                    self.b_prepare(self.peek_parity)
+                return r
+            fs.tpc_vote = vote_then_peek
 
             def finish_then_peek(txn, f=None):
                 r = orig_finish(txn, f)
@@ -268,6 +384,10 @@ class Real:
             for tm in (self.tm1, self.tm2, self.tmu, self.tm3):
                 tm.abort()
             self.db.close()
+            if self.db_other is not None:
+                self.db_other.close()
+        elif self.opts.get('build') == 'config':
+            self.top.close()
         else:
             self.fs.close()
 
@@ -418,8 +538,7 @@ class Real:
                 oid = p64(ST_OIDS[name])
                 serial = self.cur_serial(oid)
                 for v in vals:
-                    cls = RC if name[0] == 'r' else PL
-                    fs.store(oid, serial, mk_pickle(cls, {'v': v}), '', t)
+                    fs.store(oid, serial, mk_pickle(cls_of(name), state_of(name, v)), '', t)
             fs.tpc_vote(t)
             fs.tpc_finish(t)
         else:
@@ -433,7 +552,7 @@ class Real:
                 if name in root:
                     root[name].v = v
                 else:
-                    root[name] = (RC if name[0] == 'r' else PL)(v)
+                    root[name] = new_obj(name, v)
             self.tm1.get().note(DESC.decode())
             self.tm1.commit()
             tid = fs.lastTransaction()
@@ -637,7 +756,7 @@ def conn_view(conn, oid):
 
 
 def obj_view(obj):
-    if isinstance(obj, (PL, RC)):
+    if isinstance(obj, (PL, RC, RC2)):
         return ['v', obj.v]
     try:
         return ['map', sorted((k, v._p_oid.hex()) for k, v in obj.items())]
@@ -656,7 +775,7 @@ def data_view(data):
     klass = u.load()
     st = u.load()
     del refs
-    if klass in (PL, RC):
+    if klass in (PL, RC, RC2):
         return ['v', st['v']]
     d = st.get('data', st) if isinstance(st, dict) else {}
     return ['map', sorted((k, v[1].hex()) for k, v in d.items() if isinstance(v, tuple) and v[0] == 'ref')]
@@ -745,7 +864,7 @@ class Oracle:
                     c = 'refuse' if m is None else 'merge'
                 else:
                     c = 'refuse'
-                classes[oid] = c if c != 'merge' else 'merge:01%04x' % m
+                classes[oid] = c if c != 'merge' else 'merge:%s%04x' % (before[:2], m)
                 if c == 'refuse':
                     outcome = 'fail'
                 elif c in ('grey', 'grey-blob'):
@@ -757,7 +876,7 @@ class Oracle:
                     newW[oid] = before
                     DT[oid] = self.txns[bj]['tid'] if bj is not None else None
                 else:
-                    newW[oid] = '01%04x' % m
+                    newW[oid] = '%s%04x' % (before[:2], m)
                     DT[oid] = None
             if outcome == 'fail':
                 return 'fail', {}, {}, classes, nontrivial
@@ -984,6 +1103,13 @@ def add_verdict_lines(r, events):
 # ------------------------------------------------------------------ generator
 def gen_history(rng, mode):
     names = ['p0', 'p1', 'r0', 'r1'] + (['p2'] if rng.random() < 0.4 else [])
+    r = rng.random()
+    if r < 0.3:
+        names.append('q0')                   # resolvable class in a package submodule, required __init__ arg
+    elif r < 0.36:
+        names.append('g0')                   # records > 64 KiB
+    elif r < 0.5 and mode == 'st':
+        names.append('p3')                   # oid 2^64-1
     n = rng.choice([3, 4, 5, 5, 6, 7]) if mode == 'st' else rng.choice([3, 4, 5, 6])
     ops = []
     written = {}
@@ -995,12 +1121,12 @@ def gen_history(rng, mode):
         for name in rng.sample(names, k):
             if name in written and rng.random() < 0.3:
                 v = rng.choice(written[name])                 # an "equal in effect" later change
-            elif name[0] == 'r':
+            elif name[0] in 'rq':
                 v = rng.randrange(0, 40)
             else:
                 v = rng.randrange(1, 7)
             if mode == 'st' and rng.random() < 0.06:
-                sets[name] = [rng.randrange(1, 7) if name[0] == 'p' else rng.randrange(0, 40), v]
+                sets[name] = [rng.randrange(0, 40) if name[0] in 'rq' else rng.randrange(1, 7), v]
             else:
                 sets[name] = v
             written.setdefault(name, []).append(v)
@@ -1031,7 +1157,7 @@ def gen_tail(rng, mode, labels, names, written, length, counter):
         elif r < 0.75:
             name = rng.choice(names)
             v = rng.choice(written[name]) if name in written and rng.random() < 0.5 else \
-                (rng.randrange(0, 40) if name[0] == 'r' else rng.randrange(1, 7))
+                (rng.randrange(0, 40) if name[0] in 'rq' else rng.randrange(1, 7))
             written.setdefault(name, []).append(v)
             ops.append(['w', lab, {name: v}])
             labels.append(lab)
